@@ -37,7 +37,13 @@ pub enum Shape {
     ValidThenRaw(Vec<u32>, u16, Vec<u8>),
     /// a valid stream with byte edits (position, xor value)
     Mutated(Vec<u32>, Vec<(u16, u8)>),
+    /// a valid stream in which well-formed multi-byte UTF-8 sequences overwrite bytes (position, which sequence; every
+    /// other position falls into the first 80 bytes, where the text-like fields are): text that is valid UTF-8 but not
+    /// ASCII reaches code that slices strings by byte offsets
+    Utf8Spliced(Vec<u32>, Vec<(u16, u8)>),
 }
+
+const UTF8_SEQS: [&str; 10] = ["\u{e9}", "\u{df}", "\u{7ff}", "\u{800}", "\u{20ac}", "\u{ffff}", "\u{10000}", "\u{1d11e}", "\u{10ffff}", "\u{e9}\u{20ac}"];
 
 #[derive(Clone, Debug, Serialize, Deserialize)]
 pub struct FuzzCase {
@@ -66,7 +72,8 @@ fn shape_strategy() -> BoxedStrategy<Shape> {
     prop_oneof![
         3 => raw_bytes().prop_map(Shape::Raw),
         3 => (frames.clone(), any::<u16>(), raw_bytes()).prop_map(|(f, k, t)| Shape::ValidThenRaw(f, k, t)),
-        3 => (frames, proptest::collection::vec((any::<u16>(), 1u8..=255), 1..6)).prop_map(|(f, e)| Shape::Mutated(f, e)),
+        3 => (frames.clone(), proptest::collection::vec((any::<u16>(), 1u8..=255), 1..6)).prop_map(|(f, e)| Shape::Mutated(f, e)),
+        2 => (frames, proptest::collection::vec((any::<u16>(), any::<u8>()), 1..5)).prop_map(|(f, e)| Shape::Utf8Spliced(f, e)),
     ]
     .boxed()
 }
@@ -381,11 +388,24 @@ pub fn exec_fuzz(sub: &str, c: &FuzzCase) -> Outcome {
             }
             v
         }
+        Shape::Utf8Spliced(frames, edits) => {
+            let mut v = valid_input(c, frames, &mut client).unwrap_or_default();
+            for (k, (p, w)) in edits.iter().enumerate() {
+                let seq = UTF8_SEQS[*w as usize % UTF8_SEQS.len()].as_bytes();
+                if v.len() > seq.len() {
+                    let span = if k % 2 == 0 { (v.len() - seq.len()).min(80) } else { v.len() - seq.len() };
+                    let i = rt::idx(*p, span + 1);
+                    v[i..i + seq.len()].copy_from_slice(seq);
+                }
+            }
+            v
+        }
     };
     out.label(match &c.shape {
         Shape::Raw(_) => "shape:raw",
         Shape::ValidThenRaw(..) => "shape:valid-prefix-then-raw",
         Shape::Mutated(..) => "shape:mutated-valid",
+        Shape::Utf8Spliced(..) => "shape:valid-with-utf8-sequences",
     });
     let n = input.len();
     let cuts: Vec<usize> = c.cuts.iter().map(|p| 1 + rt::idx(*p, n.saturating_sub(1))).collect();
@@ -403,7 +423,7 @@ pub fn exec_fuzz(sub: &str, c: &FuzzCase) -> Outcome {
                 out.fail(format!("{}/{:?}/{}/invalid-utf8-string-from-network-bytes", sub, c.tgt, fam), "a decoded Address::Domain holds bytes that are not valid UTF-8 (String built with from_utf8_unchecked)");
             }
             if info.progressed {
-                out.nontrivial(format!("{:?}|{}|{}|{}|{}|{}", c.tgt, c.cred.proto.short(), info.items.min(3), info.err, segs.len().min(4), match &c.shape { Shape::Raw(_) => 0, Shape::ValidThenRaw(..) => 1, Shape::Mutated(..) => 2 }));
+                out.nontrivial(format!("{:?}|{}|{}|{}|{}|{}", c.tgt, c.cred.proto.short(), info.items.min(3), info.err, segs.len().min(4), match &c.shape { Shape::Raw(_) => 0, Shape::ValidThenRaw(..) => 1, Shape::Mutated(..) => 2, Shape::Utf8Spliced(..) => 3 }));
             }
         }
     }
